@@ -100,12 +100,11 @@ PROPS = {
                    'behind the emitted jump; until/repeat: back to begin, breaks and while behind the loop; loop: Loop->body, Do and breaks->behind the loop; '
                    'endcase: every endof jump to the current origin - touching no other cell, and the panic!("not a jump instruction") is unreachable; '
                    '(3) the VM primitives the opcodes are built from (loop_next, do_init, push/pop loop) against their machine-state functions.',
-        level_note='ASSUMED and unchecked: take_first_cond_flow (Verus rejects `continue` in `for`; State-level code is out of Kani\'s reach) with the literal '
-                   'contract of its loop (tfc_index). NOT decided: that composing the layers over an arbitrary nesting equals a structural evaluation '
+        level_note='take_first_cond_flow is verified after rewrite rule R15 (reversed-range `for` with `continue` -> equivalent `while`). NOT decided: that composing the layers over an arbitrary nesting equals a structural evaluation '
                    '(induction over program structure through build1 and 250 native words); word definitions/locals allocation; per-opcode functional '
                    'semantics of fetch_and_run beyond the reverse/limit contract.',
         not_decided=['composition of the three layers over arbitrary nestings (compiler correctness proper)',
-                     'definitions, redefinition, recursion, locals allocation', 'take_first_cond_flow body'],
+                     'definitions, redefinition, recursion, locals allocation'],
     ),
     'C10': dict(
         title='A source that fails to build has no effect on anything submitted afterwards',
